@@ -288,7 +288,9 @@ Inductive case :=
           (ty : ob Z) (eq sign bo : ob bool) (sx : option (ob (list Z)))
 (* Export of script data: via 0 = evaluated from source text, 1 = JSON.parse of its JSON text,
    2 = Otto.Get after the script stored it in a global, 3 = handed to a Go function as call argument,
-   4 / 5 = as 0 / 1 in a runtime whose Object.prototype and Array.prototype carry enumerable data *)
+   4 / 5 = as 0 / 1 in a runtime whose Object.prototype and Array.prototype carry enumerable data,
+   6 / 7 / 8 = as 0 / 2 / 3 where parts of the data are ONE script object reachable along several paths
+   (shared, not cyclic): v is the unfolded data, every reference must export the full copy *)
 | CExportTree (via : Z) (v : jv) (obs : ob gv)
 (* Export of an array after a history of script mutations *)
 | CExportHist (init : list (option jv)) (ops : list aop) (obs : ob gv)
